@@ -60,6 +60,19 @@ fn main() {
         let v: serde_json::Value = serde_json::from_str(&args[2]).unwrap();
         let l = lang(v["lang"].as_str().unwrap_or("en"));
         let th = v["threshold"].as_f64().unwrap_or(0.0);
+        if v["mode"].as_str() == Some("ctx") {
+            let (a, b, sep) = (v["a"].as_str().unwrap_or(""), v["b"].as_str().unwrap_or(""), v["sep"].as_str().unwrap_or(""));
+            let want = format!("{}{}{}", run(a, &l, th).unwrap_or_default(), sep, run(b, &l, th).unwrap_or_default());
+            let got = run(&format!("{}{}{}", a, sep, b), &l, th);
+            println!("parts  : {:?}", want);
+            println!("whole  : {:?}", got);
+            if got.as_deref() != Some(want.as_str()) {
+                println!("REPRODUCED: rewriting the whole text differs from rewriting its two parts");
+                std::process::exit(1);
+            }
+            println!("not reproduced");
+            return;
+        }
         let a = run(v["text"].as_str().unwrap_or(""), &l, th);
         let b = run(v["variant"].as_str().unwrap_or(""), &l, th);
         println!("base   : {:?} -> {:?}", v["text"].as_str().unwrap_or(""), a);
@@ -73,6 +86,39 @@ fn main() {
         return;
     }
     let repo = args.get(2).cloned().unwrap_or("/repo".into());
+    if mode == "ctx" {
+        // context independence: rewrite(A S B) == rewrite(A) S rewrite(B) for a strong separator S
+        let sep = " xyzzy xyzzy xyzzy. ";
+        for code in ["fr", "en", "es", "pt", "it", "de", "nl"] {
+            let l = lang(code);
+            let mut c = corpus(&repo, code);
+            c.truncate(40);
+            if code == "fr" {
+                c.insert(0, "du cent neuf".to_string());
+                c.insert(0, "le vingt neuf".to_string());
+            }
+            for a in &c {
+                for b in &c {
+                    for th in [10.0f64, 0.0] {
+                        let (ra, rb) = match (run(a, &l, th), run(b, &l, th)) {
+                            (Some(x), Some(y)) => (x, y),
+                            _ => continue,
+                        };
+                        let whole = format!("{}{}{}", a, sep, b);
+                        let want = format!("{}{}{}", ra, sep, rb);
+                        let got = run(&whole, &l, th);
+                        if got.as_deref() != Some(want.as_str()) {
+                            println!("{}", serde_json::json!({"kind":"meta","mode":"ctx","lang":code,"threshold":th,"text":whole,"variant":whole,
+                                "a":a,"b":b,"sep":sep,"expected":want,"variant_result":got}));
+                            return;
+                        }
+                    }
+                }
+            }
+        }
+        println!("{}", serde_json::json!({"kind":"none"}));
+        return;
+    }
     for code in ["en", "fr", "es", "pt", "it", "de", "nl"] {
         let l = lang(code);
         for text in corpus(&repo, code) {
